@@ -237,6 +237,30 @@ def word_level(ctx, stats, count):
         sa = norm([(min(lo, hi), max(lo, hi)) for lo, hi in A])
         sb = norm([(min(lo, hi), max(lo, hi)) for lo, hi in B])
         cases.append((A, B, sa, sb, aset_expr(A), aset_expr(B), pt()))
+    # sets of many runs (both operands beyond any small-size path): runs at a stride, the other set's runs inside
+    # them, across them, next to them, equal to them
+    for k in range(max(4, count // 25)):
+        b0 = rng.choice(bases[:3])
+        na, nb = rng.randint(65, 110), rng.randint(65, 110)
+        A = [(b0 + 16 * i, b0 + 16 * i + rng.randint(1, 12)) for i in range(na)]
+        mode = k % 4
+        B = []
+        for i in range(nb):
+            lo, hi = A[i % na]
+            if mode == 0:
+                a_ = rng.randint(lo, hi - 1)
+                B.append((a_, rng.randint(a_ + 1, hi)))                        # inside a run of A
+            elif mode == 1:
+                B.append((lo + rng.randint(-3, 3), hi + rng.randint(-2, 6)))      # across its ends
+            elif mode == 2:
+                B.append((hi, hi + rng.randint(1, 3)))                           # adjacent
+            else:
+                B.append((lo, hi) if rng.random() < 0.8 else (lo, hi + 1))        # (nearly) the same set
+        B = [(max(0, lo), max(0, hi)) for lo, hi in B]
+        rng.shuffle(B)
+        sa = norm([(min(lo, hi), max(lo, hi)) for lo, hi in A])
+        sb = norm([(min(lo, hi), max(lo, hi)) for lo, hi in B])
+        cases.append((A, B, sa, sb, aset_expr(A), aset_expr(B), A[na // 2][0]))
     qs, expect = [], []
 
     def card(iv):
@@ -364,12 +388,39 @@ def run(ctx):
     samples.append(rnd[-1])
     compare(ctx, rnd, stats, "random")
     word_level(ctx, stats, 150 if quick else 1500)
+    # however they were built: the address set of a DW_AT_ranges list (entries unsorted, nested, adjacent, empty)
+    # equals the same set built with aset and add, and has its length, bounds and runs
+    import importlib
+    c07 = importlib.import_module("checks.C07")
+    from vlib import dwforest
+    d = dwforest.workdir(ctx)
+    rrng = ctx.sub_rng("ranges")
+    for version, low_pc in ((4, 0x1000), (5, 0x400000), (3, 0)):
+        lists = [l for l in c07.range_lists(rrng, 40 if quick else 250) if not any(it[0] == "pair" and it[1] == 0 and it[2] == 0 for it in l)]
+        path = os.path.join(d, "c16-ranges-v%d.o" % version)
+        rt = c07.ranges_object(lists, version, low_pc, path)
+        qs = []
+        for die, res in rt:
+            want = norm([(a, b) for a, b in res if a < b])
+            e = aset_expr([(a, b) for a, b in res])
+            qs.append(zw.enc("entry ?(offset == %d) (|E| [[?(E @AT_ranges == %s) 1], [?(%s == E address) 1], [E @AT_ranges length], [E address low], [E address high], [E @AT_ranges range length], [?(E @AT_ranges %s ?contains) ?(%s E @AT_ranges ?contains) 1]])"
+                             % (die.off, e, e, e, e), dw=path, t=30))
+        for (die, res), l, r in zip(rt, lists, zw.run_cases(qs)):
+            stats["evaluations"] += 1
+            want = norm([(a, b) for a, b in res if a < b])
+            exp = [[1], [1], [sum(b - a for a, b in want)], [want[0][0]] if want else [], [want[-1][1]] if want else [], [b - a for a, b in want], [1]]
+            got = [[int(x["v"]) for x in q["v"]] for q in r.results[0][0]["v"]] if r.ok() and r.results else (r.crash or r.hard or "nothing")
+            if got != exp:
+                stats["disagreements"] += 1
+                if stats["disagreements"] <= 4:
+                    ctx.violation("the address set of a DW_AT_ranges list with the ranges %s (DWARF %d): equal to the set built with aset/add, equal the other way round, length, low, high, lengths of the runs, contains both ways are %s; the set of those addresses gives %s"
+                                  % ([(hex(a), hex(b)) for a, b in res], version, got, exp), {"file": path, "die": die.off, "entries": [list(x) for x in l], "kind": "ranges"})
 
     common.report_broken_obligations(ctx, oblig, bool(ctx.violations))
     ctx.cov.update({
         "evaluations": stats["evaluations"],
         "distinct_nontrivial": distinct,
-        "rule": "operation sequences (add/remove of every range over a %d-address universe, every sequence up to depth %d, at base offsets 0, 2^32-3, 2^63-3 and 2^64-7, each followed by is_covered/is_overlap/intersect for every range of the universe; plus deeper add/remove-only sequences, random long sequences and add_all/remove_all/overlap of two random sets); non-trivial = contains at least two adds or a remove; each sequence is one run of coverage.cc and one of the extracted model, compared on every output and on the final vector" % (n, depth),
+        "rule": "operation sequences (add/remove of every range over a %d-address universe, every sequence up to depth %d, at base offsets 0, 2^32-3, 2^63-3 and 2^64-7, each followed by is_covered/is_overlap/intersect for every range of the universe; plus deeper add/remove-only sequences, random long sequences and add_all/remove_all/overlap of two random sets; at word level also pairs of sets of 65-110 runs each, one inside / across / next to / equal to the runs of the other; address sets read from DW_AT_ranges (unsorted, nested, adjacent entries) against the same set built with aset and add); non-trivial = contains at least two adds or a remove; each sequence is one run of coverage.cc and one of the extracted model, compared on every output and on the final vector" % (n, depth),
         "exhaustive": True,
         "samples": samples,
         "traces_validated_against_impl": stats["evaluations"],
